@@ -61,11 +61,6 @@ func (cm *MemClientMgr) List() []*ClientConn {
 
 	var clients []*ClientConn
 	for _, client := range cm.clients {
-		// A connection is registered before it has authenticated.  Until then it is not a user: it is neither
-		// listed nor sent anything addressed to "all users".
-		if client.Account == nil {
-			continue
-		}
 		clients = append(clients, client)
 	}
 
